@@ -1606,6 +1606,11 @@ fn caller_main(w: Arc<World>, gidx: usize, ci: usize, ops: Vec<Op>, hs: Handles,
             let r = rt::catch_unwind(|| unsafe { (*envp).run_op(op) });
             if let Err(msg) = r {
                 w.hist(|| format!("caller {} op {} unwound: {}", ci, pos, msg.lines().next().unwrap_or("")));
+                w.with(|i| {
+                    if let Stage::InCall(op) | Stage::SyncWaiting(op) = i.callers[gidx].stage {
+                        i.ops[op].call_unwound = true;
+                    }
+                });
                 env.stage(Stage::Idle);
             }
         } else {
